@@ -104,6 +104,15 @@ def run(rep, tier, seed):
     for k in range(4):
         cp = streams.gen_creep_program(seed, k)
         cases.insert(0, {"kb": cp["kb"], "data": cp["data"], "seed": 1000 + k, "n_schedules": 2})
+    # a step that raises a lower bound and lowers the upper bound of the same formula by the same amount, alone in its sweep
+    # (Not(A) = 1/2 pushes A from [1/4,3/4] to [1/2,1/2] downward; And(A, C) already holds what the old A gave it): a sweep
+    # whose only change this is must still count as a change, or infer() stops before And(A, C) has seen the new A while
+    # every node-level schedule goes on (kept deterministic: detection of S04/S05 must not depend on the seed)
+    for act in ("lukt", "luk"):
+        cases.insert(0, {"kb": {"nodes": [{"id": 0, "kind": "atom"}, {"id": 1, "kind": "atom"}, {"id": 2, "kind": "not", "ops": [0]},
+                                          {"id": 3, "kind": "and", "ops": [0, 1], "act": act}], "roots": [2, 3]},
+                         "data": [(0, Fr(1, 4), Fr(3, 4)), (1, Fr(1), Fr(1)), (2, Fr(1, 2), Fr(1, 2)), (3, Fr(1, 4), Fr(3, 4))],
+                         "seed": 77, "n_schedules": 2})
     recs = engine.run_cases("prop", "run_c07", cases, chunksize=2)
     for r, c in zip(recs, cases):
         r["prog"] = c
